@@ -46,6 +46,15 @@ def _native_utf8_ok(p):
         return False
 
 
+def _native_stat_ok(p):
+    try:
+        _pl.Path(p).stat()
+        return True
+    except OSError:
+        return False
+
+
+fs_stat_ok = uf("fs_stat_ok", [PathT], Bool, concrete=_native_stat_ok)
 fs_size = uf("fs_size", [PathT], Int, concrete=lambda p: _pl.Path(p).stat().st_size)
 fs_text = uf("fs_text", [PathT], Str, concrete=_native_text)
 fs_io_ok = uf("fs_io_ok", [PathT], Bool, concrete=_native_io_ok)
@@ -55,11 +64,14 @@ _S = z3.StringSort()
 
 
 def _x_stat(ex, args, kwargs, lineno):
-    """p.stat(): only st_size is modelled (>= 0); the path must exist (else OSError -- a safety obligation)."""
+    """p.stat(): OSError unless fs_stat_ok(p) -- NOT implied by an earlier exists() (the file may vanish in between,
+    the gap C11 states for detect_language); only st_size is modelled (fs_size(p) >= 0)."""
     p = args[0].t
-    ex.safety(z3.Function("uf.fs_exists", PathT.sort(), z3.BoolSort())(p), "stat() of a path not known to exist", lineno)
+    if ex.merge_depth == 0 and ex.spec_depth == 0:
+        if not ex.decide(z3.Function("uf.fs_stat_ok", PathT.sort(), z3.BoolSort())(p)):
+            raise RaiseSig(VExc("OSError"))
     size = z3.Function("uf.fs_size", PathT.sort(), z3.IntSort())(p)
-    ex.ufs_used.add("fs_size")
+    ex.ufs_used.update({"fs_size", "fs_stat_ok"})
     ex.assume(size >= 0)
     return VRec(Rec("stat_result", st_size=Int), {"st_size": VInt(size)})
 
@@ -67,16 +79,19 @@ def _x_stat(ex, args, kwargs, lineno):
 def _x_read_text(ex, args, kwargs, lineno):
     """p.read_text(encoding="utf-8"): OSError unless fs_io_ok(p), UnicodeDecodeError unless fs_utf8_ok(p)."""
     p = args[0].t
-    if not ex.decide(z3.Function("uf.fs_io_ok", PathT.sort(), z3.BoolSort())(p)):
-        raise RaiseSig(VExc("OSError"))
-    if not ex.decide(z3.Function("uf.fs_utf8_ok", PathT.sort(), z3.BoolSort())(p)):
-        raise RaiseSig(VExc("UnicodeDecodeError"))
+    if ex.merge_depth == 0 and ex.spec_depth == 0:
+        if not ex.decide(z3.Function("uf.fs_io_ok", PathT.sort(), z3.BoolSort())(p)):
+            raise RaiseSig(VExc("OSError"))
+        if not ex.decide(z3.Function("uf.fs_utf8_ok", PathT.sort(), z3.BoolSort())(p)):
+            raise RaiseSig(VExc("UnicodeDecodeError"))
     ex.ufs_used.update({"fs_io_ok", "fs_utf8_ok", "fs_text"})
     return VStr(z3.Function("uf.fs_text", PathT.sort(), _S)(p))
 
 
-EXTERNALS.setdefault("Path.stat", _x_stat)
-EXTERNALS.setdefault("Path.read_text", _x_read_text)
+# one deterministic file-system snapshot per verification unit (functional specs need reads to be functions of the
+# path); same raise sets as the C11 model. Registered unconditionally: C11's handlers defer to these (setdefault).
+EXTERNALS["Path.stat"] = _x_stat
+EXTERNALS["Path.read_text"] = _x_read_text
 
 
 # ------------------------------------------------------------------------------------------ specification
@@ -84,6 +99,16 @@ def shebang_says_python(file_path):
     """The file is readable as UTF-8 and its first line is a shebang naming python."""
     return fs_io_ok(file_path) and fs_utf8_ok(file_path) \
         and fs_text(file_path).split("\n")[0].startswith("#!") and "python" in fs_text(file_path).split("\n")[0]
+
+
+def known_extension(file_path):
+    return name_suffix(path_name(file_path)).lower() in EXTENSIONS
+
+
+def detect_stat_race(file_path):
+    """The one way detect_language can fail (C11 'stated gap'): the extension is unknown, exists() said yes, and the
+    following stat() raises OSError (file removed / made unreachable in between)."""
+    return not known_extension(file_path) and fs_exists(file_path) and not fs_stat_ok(file_path)
 
 
 def detect_language_spec(file_path):
@@ -95,7 +120,7 @@ def detect_language_spec(file_path):
 
 
 # ------------------------------------------------------------------------------------------ language_detector.py
-@contract(LD + "_parse_shebang_language", props=["C15", "C11"], types=dict(line=Str), returns=Opt(Str))
+@contract(LD + "_parse_shebang_language", props=["C15", "C11"], types=dict(line=Str), returns=Opt(Str), raises=[])
 class ParseShebangLanguage:
     def value(line):
         return "python" if line.startswith("#!") and "python" in line else None
@@ -104,23 +129,43 @@ class ParseShebangLanguage:
 @contract(LD + "_read_first_line", props=["C15", "C11"], types=dict(file_path=PathT), returns=Str,
           raises=["OSError", "UnicodeDecodeError"])
 class ReadFirstLine:
+    """Not a containment point itself: its caller contains both classes. str.split always yields >= 1 piece."""
     def raises_when(file_path):
         return not (fs_io_ok(file_path) and fs_utf8_ok(file_path))
+
+    def on_raise_only_read_errors(exc_class):
+        return exc_class in ("OSError", "UnicodeDecodeError")
 
     def value(file_path):
         return fs_text(file_path).split("\n")[0]
 
 
-@contract(LD + "_detect_from_shebang", props=["C15", "C11"], types=dict(file_path=PathT), returns=Opt(Str))
+@contract(LD + "_detect_from_shebang", props=["C15", "C11"], types=dict(file_path=PathT), returns=Opt(Str), raises=[])
 class DetectFromShebang:
+    """Unreadable / binary file => None (language 'unknown'), never an exception."""
     def value(file_path):
         return "python" if shebang_says_python(file_path) else None
 
+    def ensures_python_or_nothing(result):
+        return result is None or result == "python"
 
-@contract(LD + "detect_language", props=["C15", "C11", "C10", "C14", "C08"], types=dict(file_path=PathT), returns=Str)
+
+@contract(LD + "detect_language", props=["C15", "C11", "C10", "C14", "C08"], types=dict(file_path=PathT), returns=Str,
+          raises=["OSError"])
 class DetectLanguage:
+    """C11 stated gap: `file_path.exists() and file_path.stat().st_size > 0` -- stat() after exists() is outside every
+    handler, so an OSError from stat escapes (exactly when detect_stat_race). No other exception class can."""
+    def raises_when(file_path):
+        return detect_stat_race(file_path)
+
+    def on_raise_only_the_stat_race(exc_class):
+        return exc_class == "OSError"
+
     def value(file_path):
         return detect_language_spec(file_path)
+
+    def ensures_a_language_name(result):
+        return len(result) > 0
 
     def ensures_known_extension_wins(file_path, result):
         # the shebang is consulted only when the (lower-cased) extension is not in the table
@@ -137,15 +182,16 @@ from contracts._common import ViolationT  # noqa: E402
 CtxT = Rec("LintContext", cls=BASE + "BaseLintContext", file_path=Opt(PathT), file_content=Opt(Str), language=Str)
 CfgT = Rec("LinterConfig", enabled=Bool, key=Int)  # `key`: ghost identity of the configuration object
 MLRuleT = Rec("MultiLanguageLintRule", cls=BASE + "MultiLanguageLintRule", key=Int)  # `key`: ghost identity of the rule
+loaded_config = uf("loaded_config", [MLRuleT, CtxT], CfgT)  # what the concrete rule's _load_config returns (C05)
 ABSTRACT = "abstract method: the language-specific analysis of a concrete rule (dynamic dispatch); the interface " \
            "contract records ON WHICH LANGUAGES it may be invoked -- that precondition is what the dispatcher must establish"
 
 
-@contract(BASE + "MultiLanguageLintRule._load_config", props=["C15"], types=dict(self=MLRuleT, context=CtxT), returns=CfgT,
-          assumed="abstract method: configuration loading of a concrete rule (C05 covers the concrete loaders)")
+@contract(BASE + "MultiLanguageLintRule._load_config", props=["C15", "C05"], types=dict(self=MLRuleT, context=CtxT),
+          returns=CfgT, assumed="abstract method: configuration loading of a concrete rule (C05 covers the concrete loaders)")
 class MLLoadConfig:
-    def ensures(result):
-        return True
+    def value(self, context):
+        return loaded_config(self, context)
 
 
 @contract(BASE + "MultiLanguageLintRule._check_python", props=["C15"], types=dict(self=MLRuleT, context=CtxT, config=CfgT),
@@ -169,7 +215,7 @@ class MLCheckRust:
         return context.language == "rust" and context.file_content is not None
 
 
-@contract(BASE + "MultiLanguageLintRule._dispatch_by_language", props=["C15"],
+@contract(BASE + "MultiLanguageLintRule._dispatch_by_language", props=["C15", "C05"],
           types=dict(self=MLRuleT, context=CtxT, config=CfgT), returns=SeqOf(ViolationT))
 class MLDispatch:
     def requires(context):
@@ -180,9 +226,12 @@ class MLDispatch:
         return implies(context.language not in ("python", "typescript", "javascript", "rust"), len(result) == 0)
 
 
-@contract(BASE + "MultiLanguageLintRule.check", props=["C15"], types=dict(self=MLRuleT, context=CtxT, config=CfgT),
+@contract(BASE + "MultiLanguageLintRule.check", props=["C15", "C05"], types=dict(self=MLRuleT, context=CtxT, config=CfgT),
           returns=SeqOf(ViolationT), inline=["has_file_content"])
 class MLCheck:
+    def ensures_disabled_reports_nothing(self, context, result):
+        return implies(not loaded_config(self, context).enabled, len(result) == 0)
+
     def ensures_other_languages_yield_nothing(context, result):
         return implies(context.language not in ("python", "typescript", "javascript", "rust"), len(result) == 0)
 
@@ -192,23 +241,24 @@ class MLCheck:
 
 # ------------------------------------------------------------------------------------------ Python-only rules
 PyRuleT = Rec("PythonOnlyLintRule", cls=PYR + "PythonOnlyLintRule", _config_override=Opt(CfgT), key=Int)
+py_loaded_config = uf("py_loaded_config", [PyRuleT, CtxT], CfgT)  # override, or load_linter_config(...) (C05)
 
 
-@contract(PYR + "PythonOnlyLintRule._should_analyze", props=["C15"], types=dict(self=PyRuleT, context=CtxT), returns=Bool,
+@contract(PYR + "PythonOnlyLintRule._should_analyze", props=["C15", "C05"], types=dict(self=PyRuleT, context=CtxT), returns=Bool,
           inline=["has_file_content"])
 class PySHouldAnalyze:
     def value(context):
         return context.language == "python" and context.file_content is not None
 
 
-@contract(PYR + "PythonOnlyLintRule._get_config", props=["C15"], types=dict(self=PyRuleT, context=CtxT), returns=CfgT,
+@contract(PYR + "PythonOnlyLintRule._get_config", props=["C15", "C05"], types=dict(self=PyRuleT, context=CtxT), returns=CfgT,
           assumed="configuration loading (override or load_linter_config with the subclass's abstract key/class): C05")
 class PyGetConfig:
-    def ensures(result):
-        return True
+    def value(self, context):
+        return py_loaded_config(self, context)
 
 
-@contract(PYR + "PythonOnlyLintRule._is_enabled", props=["C15"], types=dict(self=PyRuleT, config=CfgT), returns=Bool)
+@contract(PYR + "PythonOnlyLintRule._is_enabled", props=["C15", "C05"], types=dict(self=PyRuleT, config=CfgT), returns=Bool)
 class PyIsEnabled:
     def value(config):
         return config.enabled
@@ -221,9 +271,12 @@ class PyAnalyze:
         return True
 
 
-@contract(PYR + "PythonOnlyLintRule.check", props=["C15"], types=dict(self=PyRuleT, context=CtxT, config=CfgT),
+@contract(PYR + "PythonOnlyLintRule.check", props=["C15", "C05"], types=dict(self=PyRuleT, context=CtxT, config=CfgT),
           returns=SeqOf(ViolationT))
 class PyCheck:
+    def ensures_disabled_reports_nothing(self, context, result):
+        return implies(not py_loaded_config(self, context).enabled, len(result) == 0)
+
     def ensures_python_only(context, result):
         # property text: "language-specific linters never report on a file of another language"
         return implies(context.language != "python", len(result) == 0)
